@@ -58,7 +58,15 @@ pub const ALPHABET: &[&str] = &[
     /* 16 */ "[7, 2] %int.div nope",
     /* 17 */ "[7, 2] %int.div",
     /* 18 */ "'x = 'int",
+    // a line of several steps whose middle step yields nil (the steps after it never run): the
+    // session must survive it
+    /* 19 */ "y = 5\n[q, 9] = [1, 2]\nz = 2",
 ];
+
+/// A top-level tail call on a REPL line (no one-piece counterpart: in one program it ends the
+/// program). Judged differentially by `tail_call_pass`.
+const TAIL_DEF: &str = "g = #'int { =0 => 9 | [~, 1] __integer_subtract__ ^ }";
+const TAIL_LINE: &str = "2 ^g";
 
 /// Replacement lines tried by the shrinker, simplest first ("the simplest term of its sort").
 const SIMPLEST_VALUE: [&str; 3] = ["0", "Ok", "~"];
@@ -1302,6 +1310,54 @@ fn part_a(max_len: usize, budget: &Budget) -> Result<PartA, String> {
     })
 }
 
+/// A line that is a top-level tail call binds nothing and must leave every binding in place: for
+/// every ordered pair (a, b) of alphabet lines that do not read the previous result, the session
+/// a, TAIL_DEF, TAIL_LINE, b ends with the variables (and b with the observation) of the session
+/// a, TAIL_DEF, b. Returns (pairs checked, failures as (lines, observed, expected)).
+fn tail_call_pass() -> Result<(u64, Vec<(Vec<String>, String, String)>), String> {
+    let reads_previous = |l: &str| l == "~" || l.starts_with("{ |");
+    let lines: Vec<&str> = ALPHABET.iter().copied().filter(|l| !reads_previous(l)).collect();
+    let pairs: Vec<(&str, &str)> = lines.iter().flat_map(|a| lines.iter().map(move |b| (*a, *b))).collect();
+    let results: Vec<Result<Option<(Vec<String>, String, String)>, String>> = pairs
+        .par_iter()
+        .map(|(a, b)| {
+            crate::sim::system::install_panic_recorder();
+            let run = |with_tail: bool| -> Result<(Obs, Option<Snap>, Obs), String> {
+                let mut s = Sess::new()?;
+                s.eval(a);
+                s.eval(TAIL_DEF);
+                let t = if with_tail { s.eval(TAIL_LINE) } else { Obs::NoCode };
+                let o = s.eval(b);
+                let snap = s.snapshot().ok();
+                s.close();
+                Ok((o, snap, t))
+            };
+            let (o1, s1, t) = run(true)?;
+            let (o0, s0, _) = run(false)?;
+            let hist = vec![a.to_string(), TAIL_DEF.to_string(), TAIL_LINE.to_string(), b.to_string()];
+            if t != Obs::Value("9".into()) {
+                return Ok(Some((hist, format!("the tail-call line yields {}", t.show()), "9".into())));
+            }
+            let vars = |s: &Option<Snap>| s.as_ref().map(|s| format!("{:?}", s.vars)).unwrap_or_else(|| "<unreadable>".into());
+            if o1 != o0 || vars(&s1) != vars(&s0) {
+                return Ok(Some((
+                    hist,
+                    format!("last line yields {}, variables {}", o1.show(), vars(&s1)),
+                    format!("{} and {} (the same session without the tail-call line)", o0.show(), vars(&s0)),
+                )));
+            }
+            Ok(None)
+        })
+        .collect();
+    let mut fails = vec![];
+    for r in results {
+        if let Some(f) = r? {
+            fails.push(f);
+        }
+    }
+    Ok((pairs.len() as u64, fails))
+}
+
 /// Clause 2 over the whole table: a history with rejected lines must end in the same observable
 /// state (and, if its last line was accepted, the same last result) as the history without them —
 /// which is itself a member of the universe.
@@ -1682,6 +1738,15 @@ fn run_inner(tier: Tier) -> Result<Report, String> {
             violations.push(v);
         }
     }
+    // top-level tail-call lines (differential; see tail_call_pass)
+    let (tail_pairs, tail_fails) = tail_call_pass()?;
+    for (lines, observed, expected) in tail_fails.into_iter().take(12) {
+        violations.push(Violation {
+            signature: signature("tail-call-line", "", &lines),
+            summary: format!("history {:?}: observed {} — expected {}", lines, observed, expected),
+            replay: json!({"engine": "c11", "kind": "tail-call-line", "lines": lines}),
+        });
+    }
 
     let mut states = a.out.states.clone();
     states.extend(b.states.iter().copied());
@@ -1722,6 +1787,7 @@ fn run_inner(tier: Tier) -> Result<Report, String> {
         "value_comparisons_using_hoisted_type_definitions": a.out.counters.compared_hoisted + b.counters.compared_hoisted,
         "rejected_line_checks": {"histories_with_rejected_lines_compared_to_their_clean_history": rej_checked, "clean_history_not_visited": rej_missing},
         "flow_probes_at_leaves": a.out.probes,
+        "tail_call_line_pairs": tail_pairs,
         "variable_value_comparisons": {"compared_with_one_piece": a.out.counters.vars_compared + b.counters.vars_compared,
             "one_piece_probe_program_not_runnable": a.out.counters.vars_not_comparable + b.counters.vars_not_comparable},
         "not_judged": {
@@ -1757,6 +1823,28 @@ pub fn replay(replay: &J) -> Result<bool, String> {
         .iter()
         .filter_map(|l| l.as_str().map(String::from))
         .collect();
+    if replay["kind"].as_str() == Some("tail-call-line") {
+        // lines = [a, TAIL_DEF, TAIL_LINE, b]
+        if lines.len() != 4 {
+            return Err("tail-call-line replay needs four lines".into());
+        }
+        let run = |with_tail: bool| -> Result<(Obs, String), String> {
+            let mut s = Sess::new()?;
+            s.eval(&lines[0]);
+            s.eval(&lines[1]);
+            if with_tail {
+                s.eval(&lines[2]);
+            }
+            let o = s.eval(&lines[3]);
+            let v = s.snapshot().map(|s| format!("{:?}", s.vars)).unwrap_or_else(|_| "<unreadable>".into());
+            s.close();
+            Ok((o, v))
+        };
+        let (o1, v1) = run(true)?;
+        let (o0, v0) = run(false)?;
+        println!("  with the tail-call line: {} / {}\n  without it: {} / {}", o1.show(), v1, o0.show(), v0);
+        return Ok(o1 != o0 || v1 != v0);
+    }
     let class = replay["class"].as_str().unwrap_or("");
     let sub = replay["sub"].as_str().unwrap_or("");
     let mode = if replay["mode"].as_str() == Some("session") {
